@@ -428,7 +428,7 @@ class LogFileDateSinceSeeker():
                 break
 
             current_offset = current_offset - len(chunk)
-            if (start_offset + current_offset) < 0:
+            if read_offset == 0:
                 return SearchState(status=FindTokenStatus.REACHED_EOF,
                                    offset=0)
 
